@@ -16,7 +16,7 @@ RULE = ('inputs: Hypothesis text() over the full code-point range (surrogates, N
         'and truncation of G1 programs and repository snippets; exhaustively all strings of length <= 3 (quick) / '
         '<= 4 (thorough) over a hot alphabet; a coverage-guided atheris/libFuzzer campaign (seed corpus = repository snippets + empty input, JS token dictionary) with the same oracle inside the target; each through parse(text), parse(text, with_comments=True) and bare '
         'Lexer iteration. Oracle: outcome is a tree or ECMASyntaxError (subclass); nothing else escapes; no case '
-        'exceeds the watchdog twice; the first quoted text of a syntax-error message occurs in the input at the '
+        'exceeds the process-level watchdog twice (each case runs in a child interpreter that is killed on timeout); the first quoted text of a syntax-error message occurs in the input at the '
         'quoted line:column. non-trivial = input containing a string/regex/comment opener or >= 2 tokens '
         '(white-space separated pieces or punctuation mix); distinct by text')
 ASSUMPTIONS = ['termination is judged by a generous per-case watchdog (20 s, re-run once with 60 s); a trip is '
@@ -115,36 +115,130 @@ def check_message(text, msg):
 
 MODES = ('parse', 'parse_wc', 'lex', 'lex_yc')
 
+# A hang inside the C regular-expression engine (catastrophic back-tracking) never returns to the
+# interpreter, so no in-process alarm can interrupt it.  Every case is therefore evaluated by a child
+# interpreter that the worker can kill: "does not loop" is decided by a process-level watchdog.
+SERVE_MAIN = r'''
+import json, sys
+from props import c12
+sys.stdout.write(json.dumps({'ready': True}) + '\n'); sys.stdout.flush()
+for line in sys.stdin:
+    req = json.loads(line)
+    res = [list(c12.outcome(req['text'], m)) for m in req['modes']]
+    sys.stdout.write(json.dumps(res) + '\n'); sys.stdout.flush()
+'''
+
+
+class Child(object):
+    def __init__(self, root):
+        import subprocess
+        import sys
+        from harness import build
+        from harness.runner import VERIF
+        self.root = root
+        code = build.boot_code(root) + ('sys.path.insert(0, %r)\n' % VERIF) + SERVE_MAIN
+        env = build.child_env(root)
+        self.p = subprocess.Popen([sys.executable, '-c', code], env=env, stdin=subprocess.PIPE,
+                                  stdout=subprocess.PIPE, stderr=subprocess.DEVNULL, cwd=VERIF)
+        if self._read(60) is None:
+            raise RuntimeError('C12 child interpreter did not start')
+
+    def _read(self, timeout):
+        import json
+        import os
+        import select
+        buf = b''
+        end = time.time() + timeout
+        fd = self.p.stdout.fileno()
+        while True:
+            left = end - time.time()
+            if left <= 0:
+                return None
+            r, _, _ = select.select([fd], [], [], left)
+            if not r:
+                return None
+            chunk = os.read(fd, 1 << 16)
+            if not chunk:
+                raise RuntimeError('C12 child interpreter died')
+            buf += chunk
+            if buf.endswith(b'\n'):
+                return json.loads(buf.decode('utf-8'))
+
+    def ask(self, text, modes, timeout):
+        import json
+        self.p.stdin.write((json.dumps({'text': text, 'modes': list(modes)}) + '\n').encode('utf-8'))
+        self.p.stdin.flush()
+        return self._read(timeout)
+
+    def kill(self):
+        try:
+            self.p.kill()
+            self.p.wait(timeout=10)
+        except Exception:
+            pass
+
+
+_CHILD = {}
+
+
+def child_for(root):
+    c = _CHILD.get('c')
+    if c is None or c.p.poll() is not None:
+        c = _CHILD['c'] = Child(root)
+    return c
+
+
+def evaluate(root, text, timeout):
+    """-> list of outcomes (one per mode) or None when the child had to be killed"""
+    c = child_for(root)
+    res = c.ask(text, MODES, timeout)
+    if res is None:
+        c.kill()
+        _CHILD.pop('c', None)
+        return None
+    return [tuple(r) for r in res]
+
 
 def check_text(acc, text, opens, origin):
     labels = []
     if acc.extra.get('shard_aborted'):
         acc.skipped['after_shard_abort'] += 1
         return labels
-    for mode in MODES:
-        confirmed = acc.extra.get('nontermination_confirmed', 0)
-        try:
-            out = run_with_watchdog(lambda: outcome(text, mode), 20 if confirmed < 2 else 3)
-        except Timeout:
-            if confirmed >= 2:
-                # two cases already confirmed in this shard: do not spend minutes on every further one
-                acc.label('slow_case_after_confirmed_nontermination')
-                if acc.labels['slow_case_after_confirmed_nontermination'] >= 10:
-                    # the tree under test hangs on a whole class of inputs: report what was confirmed
-                    # and stop this shard instead of spending its budget on more of the same
-                    acc.extra['shard_aborted'] = 1
-                    acc.budget_hit = True
-                    return labels
-                continue
-            try:
-                out = run_with_watchdog(lambda: outcome(text, mode), 60)
-                acc.label('watchdog_tripped_once')
-            except Timeout:
-                acc.extra['nontermination_confirmed'] = confirmed + 1
-                acc.fail('c12.suspected_nontermination', {'text': text, 'mode': mode, 'origin': origin},
-                         {'bucket': 'nontermination:' + mode,
-                          'note': 'no result within 20 s and, re-run alone, within 60 s (median case: ~2 ms)'}, opens)
-                continue
+    root = acc.extra.get('_root') or _default_root()
+    confirmed = acc.extra.get('nontermination_confirmed', 0)
+    outs = evaluate(root, text, 20 if confirmed < 2 else 3)
+    if outs is None:
+        if confirmed >= 2:
+            acc.label('slow_case_after_confirmed_nontermination')
+            if acc.labels['slow_case_after_confirmed_nontermination'] >= 10:
+                # the tree under test hangs on a whole class of inputs: report what was confirmed and
+                # stop this shard instead of spending its budget on more of the same
+                acc.extra['shard_aborted'] = 1
+                acc.budget_hit = True
+            return labels
+        # re-run alone in a fresh child, one mode at a time, with a larger allowance
+        hung = None
+        for mode in MODES:
+            c = child_for(root)
+            r = c.ask(text, (mode,), 60)
+            if r is None:
+                c.kill()
+                _CHILD.pop('c', None)
+                hung = mode
+                break
+        if hung is None:
+            acc.label('watchdog_tripped_once')
+            outs = evaluate(root, text, 120)
+            if outs is None:
+                hung = 'all modes together'
+        if hung is not None:
+            acc.extra['nontermination_confirmed'] = confirmed + 1
+            acc.fail('c12.suspected_nontermination', {'text': text, 'mode': hung, 'origin': origin},
+                     {'bucket': 'nontermination', 'mode': hung,
+                      'note': 'no result within 20 s and, re-run alone in a fresh interpreter, within 60 s '
+                              '(median case: ~2 ms); the child interpreter had to be killed'}, opens)
+            return labels
+    for mode, out in zip(MODES, outs):
         labels.append(out[0])
         if out[0] == 'exc':
             acc.fail(None, {'text': text, 'mode': mode, 'origin': origin},
@@ -159,6 +253,11 @@ def check_text(acc, text, opens, origin):
         elif out[0] == 'recursion':
             acc.skipped['recursion_limit'] += 1
     return labels
+
+
+def _default_root():
+    from harness import build
+    return build._made[0]
 
 
 def classify_message_failure(text, msg, bad):
@@ -226,6 +325,7 @@ def run_shard(shard):
     acc = Acc()
     opens = shard['open_signatures']
     kind = shard['kind']
+    acc.extra['_root'] = shard['root']
 
     def one(text, origin, sample=True):
         labels = check_text(acc, text, opens, origin)
@@ -280,6 +380,10 @@ def run_shard(shard):
             one(t, 'exh', sample=(idx % 997 == 0))
         acc.extra['exhaustive_strings'] = shard['hi'] - shard['lo']
         acc.extra['exhaustive_alphabet'] = [''.join(alpha)]
+    acc.extra.pop('_root', None)
+    c = _CHILD.pop('c', None)
+    if c is not None:
+        c.kill()
     return acc.result()
 
 
@@ -301,15 +405,29 @@ def run_fuzz(acc, opens, shard):
                            timeout=6 * 3600)
         stats_file = os.path.join(work, 'stats.json')
         if not os.path.exists(stats_file):
-            raise RuntimeError('fuzz child produced no statistics (rc=%s): %s' % (p.returncode, p.stderr[-800:]))
-        with open(stats_file) as fd:
-            stats = json.load(fd)
+            if any(f.startswith(('timeout-', 'crash-')) for f in os.listdir(work)):
+                stats = {'executions': 0, 'outcomes': {}}
+            else:
+                raise RuntimeError('fuzz child produced no statistics (rc=%s): %s' % (p.returncode, p.stderr[-800:]))
+        else:
+            with open(stats_file) as fd:
+                stats = json.load(fd)
         for f in sorted(os.listdir(work)):
+            if f.startswith(('timeout-', 'crash-', 'oom-')):
+                # libFuzzer stopped on this input (its own -timeout alarm fires even inside C code)
+                with open(os.path.join(work, f), 'rb') as fd:
+                    data = fd.read()
+                try:
+                    text = data[1:].decode('utf-8', 'replace')
+                except Exception:
+                    continue
+                acc.label('fuzz_artifact_' + f.split('-')[0])
+                check_text(acc, text, opens, 'fuzz_' + f.split('-')[0])
             if f.startswith('finding-'):
                 with open(os.path.join(work, f)) as fd:
                     d = json.load(fd)
                 # re-judge in this process through the ordinary oracle (this also writes the replay case)
-                check_text(acc, opens, d['text'], 'fuzz')
+                check_text(acc, d['text'], opens, 'fuzz')
         acc.evaluations += stats['executions']
         acc.extra['fuzz_executions'] = acc.extra.get('fuzz_executions', 0) + stats['executions']
         acc.extra['fuzz_corpus_files'] = acc.extra.get('fuzz_corpus_files', 0) + stats.get('corpus_files', 0)
